@@ -89,6 +89,7 @@ var libSigs = map[string]libSig{
 	"unicode.IsSpace":   {[]string{"Int"}, "Bool"},
 	"itoa":              {[]string{"Int"}, "Str"},
 	"strlex":            {[]string{}, "Bool"},
+	"strings.Compare":   {[]string{"Str", "Str"}, "Int"},
 	"digdots":           {[]string{"Str"}, "Bool"},
 }
 
@@ -115,11 +116,11 @@ var libAxioms = map[string]libAx{
 		// digdots(s): every byte of s is an ASCII digit or '.'; splitting such a string at "." yields digit strings (or empty ones)
 		"(assert (forall ((s Str) (i Int)) (! (=> (and (L_digdots s) (<= 0 i) (< i (len_L_Str (L_strings_Split s @lit:.@))) (> (str_len (select (arr_L_Str (L_strings_Split s @lit:.@)) i)) 0)) (L_isdigits (select (arr_L_Str (L_strings_Split s @lit:.@)) i))) :pattern ((select (arr_L_Str (L_strings_Split s @lit:.@)) i)))))",
 	}},
-	"strlex": {nil, []string{
+	"strlex": {[]string{"strings.Compare"}, []string{
 		// Go's string order is lexicographic on bytes: the first byte decides when it differs
-		"(assert (forall ((a Str) (b Str)) (! (=> (and (> (str_len a) 0) (> (str_len b) 0) (< (str_at a 0) (str_at b 0))) (str_lt a b)) :pattern ((str_lt a b)))))",
-		"(assert (forall ((a Str) (b Str)) (! (=> (and (str_lt a b) (> (str_len a) 0)) (and (> (str_len b) 0) (<= (str_at a 0) (str_at b 0)))) :pattern ((str_lt a b)))))",
-		"(assert (forall ((a Str) (b Str)) (! (=> (and (= (str_len a) 1) (= (str_len b) 1) (= (str_at a 0) (str_at b 0))) (= a b)) :pattern ((str_lt a b)))))",
+		"(assert (forall ((a Str) (b Str)) (! (=> (and (> (str_len a) 0) (> (str_len b) 0) (< (str_at a 0) (str_at b 0))) (str_lt a b)) :pattern ((L_strings_Compare a b)))))",
+		"(assert (forall ((a Str) (b Str)) (! (=> (and (str_lt a b) (> (str_len a) 0)) (and (> (str_len b) 0) (<= (str_at a 0) (str_at b 0)))) :pattern ((L_strings_Compare a b)))))",
+		"(assert (forall ((a Str) (b Str)) (! (=> (and (= (str_len a) 1) (= (str_len b) 1) (= (str_at a 0) (str_at b 0))) (= a b)) :pattern ((L_strings_Compare a b)))))",
 	}},
 	"strconv.Atoi#0": {[]string{"strconv.Atoi#1"}, []string{
 		"(assert (forall ((s Str)) (! (inr64 (L_strconv_Atoi_0 s)) :pattern ((L_strconv_Atoi_0 s)))))",
